@@ -11,7 +11,7 @@ from . import common, driver, lifecycle
 from .common import HarnessError, digest_obj, rng_for
 
 PROP = "C11"
-TIERS = {"quick": {"budget": 45.0, "max_runs": 10 ** 9}, "thorough": {"budget": 840.0, "max_runs": 10 ** 9}}
+TIERS = {"quick": {"budget": 60.0, "max_runs": 10 ** 9}, "thorough": {"budget": 840.0, "max_runs": 10 ** 9}}
 MAX_VIOLATIONS_REPORTED = 3
 
 
